@@ -1,9 +1,11 @@
 (* C11 - Generation is deterministic and idempotent.
    The generator starts no goroutine (checked syntactically on every run), so process-level randomness can reach the
-   output only through Go map iteration. The model pins the two places where a map's order feeds an ordered structure. *)
+   output only through Go map iteration. The model pins the two places where a map's order feeds an ordered structure,
+   and the census (Census_gen.v, regenerated from /repo's source by a go/types pass on every run) ties every map iteration
+   the generator's packages contain to a class of loop whose effect is proved the same for every iteration order. *)
 From Coq Require Import List Arith Bool Permutation String.
 Import ListNotations.
-Require Import Determinism Dec VarPool VarPoolRun.
+Require Import Determinism Dec VarPool VarPoolRun MapLoops Census_gen.
 
 (* the import block: whatever order the used-imports map is ranged in (any permutation), sorting by the distinct import
    paths yields the same block *)
@@ -23,3 +25,18 @@ Print Assumptions C11_adjacency_order_independent.
 Theorem C11_names_function_of_history : forall rs pre reqs o1 o2, serve rs pre reqs = Some o1 -> serve rs pre reqs = Some o2 -> o1 = o2.
 Proof. intros rs pre reqs o1 o2 H1 H2. rewrite H1 in H2. injection H2 as ->. reflexivity. Qed.
 Print Assumptions C11_names_function_of_history.
+
+(* every iteration over a Go map in the generator's packages (root package, internal/kessoku, internal/config, cmd/kessoku;
+   found in the current source by the census) belongs to a class of loop - collect then sort by distinct keys, flag the
+   visited entries, copy entries into another map under their own keys, fill the adjacency table - whose effect is the same
+   for every order in which the runtime delivers the entries. A loop that is new, or whose text changed since it was
+   reviewed, has no class, and this theorem stops checking. *)
+Theorem C11_every_map_iteration_order_independent : forall site c, In (site, c) census_generator -> exists cl, c = Some cl /\ class_sound cl.
+Proof. exact (all_classified_sound _ census_generator eq_refl). Qed.
+Print Assumptions C11_every_map_iteration_order_independent.
+
+(* the classes are not empty words: flagging entries and copying entries, in two different orders *)
+Example C11_loop_classes_example :
+  (forall k, mark nat (fun e => e) [3; 1; 2] (fun _ => false) k = mark nat (fun e => e) [2; 3; 1] (fun _ => false) k) /\
+  filter_into nat (fun e => e) Nat.even [4; 1; 2] (fun _ => None) 2 = Some 2 /\ filter_into nat (fun e => e) Nat.even [2; 4; 1] (fun _ => None) 1 = None.
+Proof. split; [intro k; apply mark_order_independent; apply Permutation_sym; apply (Permutation_cons_append [3;1] 2)|split; vm_compute; reflexivity]. Qed.
